@@ -68,6 +68,7 @@ inductive Fn
   | ratio     -- ⌊scaleHi / scaleLo⌋ as big.Int
   | scal      -- eval.Mul(ct, ratioInt, ·) on one polynomial
   | smax      -- Scale.Max
+  | dmax      -- utils.Max on one component of LogDimensions (InitOutputBinaryOp)
   | smul      -- Scale.Mul
   | sinv      -- bgv.MulScaleInvariant(params, a, b, level)
   | r0 | r1   -- the two results of bgv.matchScalesBinary(scale0, scale1)
@@ -141,11 +142,43 @@ def bqm : Nat := 13   -- bgv evaluatorBuffers.buffQMul[0..6]
 def bigArg : Nat := 5 -- the caller's *big.Int (bgv.Add / bgv.Mul)
 def fScale : Nat := 8
 def fMeta : Nat := 9
+-- the metadata fields the binary/unary output initialisation writes one by one
+def fRows : Nat := 20     -- LogDimensions.Rows
+def fCols : Nat := 21     -- LogDimensions.Cols
+def fBatched : Nat := 22  -- IsBatched
+def fNTT : Nat := 23      -- IsNTT
+def metaFields : List Nat := [fRows, fCols, fBatched, fNTT]
 
 def isScratch (o : Nat) : Bool := o == bq || o == bqp || o == bct || o == bqm || o == 14
 
 def L (o f : Nat) : Loc := ⟨o, f⟩
 def st (dst : Loc) (fn : Fn) (args : List Loc) : Step := ⟨dst, fn, args⟩
+
+/-! ### metadata of the receiver: rlwe.Evaluator.InitOutputBinaryOp / InitOutputUnaryOp
+    (core/rlwe/evaluator.go:147-187, 203-222), the first thing every Add/Sub/Mul… does -/
+
+/-- InitOutputBinaryOp: `opOut.IsNTT = op0.IsNTT`, `opOut.IsBatched = op0.IsBatched`,
+    `opOut.LogDimensions.Rows = max(op0.…Rows, op1.…Rows)`, `….Cols = max(op0.…Cols, op1.…Cols)` — each component is
+    computed from BOTH operands in one expression and only then stored -/
+def initBinaryMeta (p : Pat) : Prog :=
+  let a := p.op0; let b := p.op1; let o := p.out
+  [ st (L o fNTT) .copy [L a fNTT], st (L o fBatched) .copy [L a fBatched],
+    st (L o fRows) .dmax [L a fRows, L b fRows], st (L o fCols) .dmax [L a fCols, L b fCols] ]
+
+/-- a variant that is NOT alias-safe (the shape of seeded regression C09-r3m3; never was the code of /repo):
+    `opOut.LogDimensions = op0.LogDimensions` first, then the maximum with op1's — with `opOut == op1` the first
+    assignment has overwritten what the second statement reads -/
+def initBinaryMetaOverwriteFirst (p : Pat) : Prog :=
+  let a := p.op0; let b := p.op1; let o := p.out
+  [ st (L o fNTT) .copy [L a fNTT], st (L o fBatched) .copy [L a fBatched],
+    st (L o fRows) .copy [L a fRows], st (L o fCols) .copy [L a fCols],
+    st (L o fRows) .dmax [L o fRows, L b fRows], st (L o fCols) .dmax [L o fCols, L b fCols] ]
+
+/-- InitOutputUnaryOp: IsNTT, IsBatched, LogDimensions of op0 -/
+def initUnaryMeta (p : Pat) : Prog :=
+  let a := p.op0; let o := p.out
+  [ st (L o fNTT) .copy [L a fNTT], st (L o fBatched) .copy [L a fBatched],
+    st (L o fRows) .copy [L a fRows], st (L o fCols) .copy [L a fCols] ]
 
 /-! ### ckks.evaluateInPlace (Add/Sub with scale alignment), degree 1 ⊕ degree 1 -/
 
@@ -723,6 +756,7 @@ def intFn : Fn → List Int → Int
   | .ratio, [s, t] => s / t
   | .scal, [r, x] => r * x
   | .smax, [s, t] => max s t
+  | .dmax, [s, t] => max s t
   | .smul, [s, t] => s * t
   | .sinv, [s, t] => 5 * (s * t)
   | .r0, [_, t] => t
@@ -771,7 +805,8 @@ inductive Op
   | bgvMatchScale | bgvAddBig | bgvMulBig | rlweAut | rlwePTS (n : Nat) | divRound | divRoundNTT
 deriving DecidableEq, Repr
 
-def Op.prog {α : Type} (I : Interp α) (op : Op) (p : Pat) (σ : Store α) : Prog :=
+/-- the arithmetic part of an operation -/
+def Op.valueProg {α : Type} (I : Interp α) (op : Op) (p : Pat) (σ : Store α) : Prog :=
   match op with
   | .ckksEval => ckksEvalProg p (I.cmp (σ (L p.op0 fScale)) (σ (L p.op1 fScale)))
   | .ckksMul => ckksMulRelinProg false p
@@ -788,18 +823,30 @@ def Op.prog {α : Type} (I : Interp α) (op : Op) (p : Pat) (σ : Store α) : Pr
   | .divRound => divRoundProg p
   | .divRoundNTT => divRoundNTTProg p
 
+/-- the metadata initialisation that precedes it -/
+def Op.metaProg (op : Op) (p : Pat) : Prog :=
+  match op with
+  | .ckksEval | .ckksMul | .ckksMulRelin | .bgvTensor | .bgvTensorRelin | .bgvTensorSI | .bgvTensorSIRelin
+  | .bgvMatchScale => initBinaryMeta p
+  | .bgvAddBig | .bgvMulBig => initUnaryMeta p
+  | _ => []
+
+def Op.prog {α : Type} (I : Interp α) (op : Op) (p : Pat) (σ : Store α) : Prog :=
+  op.metaProg p ++ op.valueProg I p σ
+
 def Op.exec {α : Type} (I : Interp α) (op : Op) (p : Pat) (σ : Store α) : Store α :=
   run I (op.prog I p σ) σ
 
 /-- the fields of `out` that carry the result -/
 def Op.outFields : Op → List Nat
-  | .ckksMul | .bgvTensor | .bgvTensorSI => [0, 1, 2, fScale]
+  | .ckksMul | .bgvTensor | .bgvTensorSI => [0, 1, 2, fScale] ++ metaFields
   | .rlweAut | .rlwePTS _ => [0, 1, fScale, fMeta]
-  | .divRound | .divRoundNTT | .bgvAddBig | .bgvMulBig => [0, 1]
-  | _ => [0, 1, fScale]
+  | .divRound | .divRoundNTT => [0, 1]
+  | .bgvAddBig | .bgvMulBig => [0, 1] ++ metaFields
+  | _ => [0, 1, fScale] ++ metaFields
 
 /-- the argument objects (besides `out`) whose every field must be unchanged by the call -/
-def Op.inputFields : List Nat := [0, 1, 2, fScale, fMeta]
+def Op.inputFields : List Nat := [0, 1, 2, fScale, fMeta] ++ metaFields
 
 /-- `store` with the operand contents of the test store placed according to the pattern:
     role op0 has the test contents of object 0, role op1 those of object 1 (if `op0 = op1` both are
